@@ -577,6 +577,22 @@ fn replay_part(v: &Value) -> Result<(), String> {
 }
 
 pub fn run(ctx: &Ctx, st: &mut Stats) -> Vec<Violation> {
+    if ctx.light {
+        // secondary build configurations (C20): every fifth case, no pair histories
+        let cs: Vec<Case> = cases(ctx).into_iter().enumerate().filter(|(i, _)| i % 5 == (ctx.seed % 5) as usize).map(|(_, c)| c).collect();
+        let mut out = par_sweep(ctx, st, cs.len() as u64, |lo, hi, st| {
+            for i in lo..hi {
+                if let Err(v) = check(&cs[i as usize], st) {
+                    return Some(v);
+                }
+            }
+            None
+        });
+        if out.is_empty() {
+            out.extend(subsampled_sizes(ctx, st));
+        }
+        return out;
+    }
     let cs = cases(ctx);
     let n = cs.len();
     let out = par_sweep(ctx, st, n as u64, |lo, hi, st| {
